@@ -185,6 +185,7 @@ fn adapt<I: DoubleEndedIterator + ExactSizeIterator>(it: I, rev: bool, skip: usi
 /// (Learnt from a seeded change that narrowed the impl header to `Vec<T>` alpha.)
 pub trait AnswerM {
     fn into_item_m(self) -> Item;
+    fn from_item_m(a: Item) -> Self;
 }
 
 pub fn read_answers<'a, I>(it: I) -> Box<dyn It + 'a>
@@ -1023,6 +1024,7 @@ macro_rules! soa {
 
             impl AnswerM for Alpha<C<f32>, f64> {
                 fn into_item_m(self) -> Item { to_item_m(self) }
+                fn from_item_m(a: Item) -> Self { from_item_m(a) }
             }
             impl AnswerM for C<f32> {
                 // the color collection answered instead of the alpha wrapper: alpha is lost
@@ -1031,6 +1033,7 @@ macro_rules! soa {
                     a[NCOLOR] = f32::NAN;
                     a
                 }
+                fn from_item_m(a: Item) -> Self { from_item(a) }
             }
             #[allow(dead_code)]
             trait MixedFallback: Sized {
@@ -1052,7 +1055,8 @@ macro_rules! soa {
                     self.0.extend(src.map(from_item_m))
                 }
                 fn get(&self, i: usize) -> Option<Item> {
-                    self.0.get(i).map(|c| to_item_m(c.copied()))
+                    // (either answer, see `AnswerM`)
+                    self.0.get(i).map(|c| c.copied().into_item_m())
                 }
                 fn get_range<'a>(&'a self, r: &RangeSpec) -> Option<Box<dyn It + 'a>> {
                     // palette offers no iterator for mixed element types; read the
@@ -1074,8 +1078,8 @@ macro_rules! soa {
                 }
                 fn get_mut(&mut self, i: usize, new: Option<Item>) -> Option<Item> {
                     self.0.get_mut(i).map(|mut c| {
-                        let old = to_item_m(c.copied());
-                        if let Some(n) = new { c.set(from_item_m(n)); }
+                        let old = c.copied().into_item_m();
+                        if let Some(n) = new { c.set(AnswerM::from_item_m(n)); }
                         old
                     })
                 }
